@@ -371,7 +371,8 @@ def judge_and_report(chk: Check, cases: T.List[T.Dict[str, T.Any]], label: str, 
 
 # quick tier: every block kind once; (kind, variant) with variant None = seeded choice
 QUICK_PLAN = [[('hdr', 3), ('chain', None)], [('dep', None), ('script', 0), ('conf', 0)], [('gen', 1), ('ctlib', 0), ('pair', 0)],
-              [('tool', None), ('run', 0), ('pair', 3)], [('link', None)], [('subproj', None), ('hdr', 4), ('pair', 2)]]
+              [('tool', None), ('run', 0), ('pair', 3)], [('link', None)], [('subproj', None), ('hdr', 4), ('pair', 2)],
+              [('unity', None)]]
 
 
 def make_jobs(chk: Check, quick: bool) -> T.List[T.Dict[str, T.Any]]:
@@ -385,7 +386,7 @@ def make_jobs(chk: Check, quick: bool) -> T.List[T.Dict[str, T.Any]]:
             p = {'family': 'shape',
                  'opts': {'default_library': rnd.choice(['shared', 'static', 'both']), 'unity': rnd.choice(['off', 'off', 'on']),
                           'buildtype': rnd.choice(['debug', 'release'])},
-                 'blocks': [{'kind': kind, 'n': j + 1, 'sub': kind != 'subproj' and rnd.random() < 0.4,
+                 'blocks': [{'kind': kind, 'n': j + 1, 'sub': kind not in ('subproj', 'unity') and rnd.random() < 0.4,
                              'v': rnd.randrange(PJ.VARIANTS[kind]) if v is None else v}
                             for j, (kind, v) in enumerate(QUICK_PLAN[k])]}
         else:
@@ -417,7 +418,7 @@ def account(chk: Check, cases: T.List[T.Dict[str, T.Any]]) -> None:
 
 def main(chk: Check) -> None:
     quick = chk.tier == 'quick'
-    chk.rule = ('B: generated projects (1-3 feature blocks out of 12 kinds, or a projgen random project of 5-9 targets) configured '
+    chk.rule = ('B: generated projects (1-3 feature blocks out of 13 kinds, or a projgen random project of 5-9 targets) configured '
                 'by the real meson, every build statement executed under strace, 3 adversarial real schedules and one hermetic '
                 'replay per statement; TLC judges each record and explores every schedule of every recorded graph. '
                 'Non-trivial = a graph with >= 8 statements in which statements read >= 3 files generated by other statements '
